@@ -400,7 +400,7 @@ func (r *resolver) applyDeviation(y *Module, d *Deviation) error {
 			hasType.setUnits("")
 		}
 		if d.Delete.HasDefault() {
-			if hasType.DefaultValue() != d.Delete.DefaultValue() {
+			if !sameDefaults(hasType.DefaultValue(), d.Delete.DefaultValue()) {
 				return fmt.Errorf("cannot delete default '%s' != '%s' on %s",
 					d.Delete.Default(), hasType.DefaultValue(),
 					d.Ident())
@@ -442,6 +442,29 @@ func (r *resolver) applyDeviation(y *Module, d *Deviation) error {
 
 	}
 	return nil
+}
+
+// a leaf holds its default as a string, a leaf-list and the deviate statement as a list
+func sameDefaults(a interface{}, b interface{}) bool {
+	norm := func(x interface{}) []string {
+		switch v := x.(type) {
+		case string:
+			return []string{v}
+		case []string:
+			return v
+		}
+		return nil
+	}
+	na, nb := norm(a), norm(b)
+	if len(na) != len(nb) {
+		return false
+	}
+	for i := range na {
+		if na[i] != nb[i] {
+			return false
+		}
+	}
+	return true
 }
 
 func isArrayStringEqual(a []string, b []string) bool {
